@@ -209,6 +209,9 @@ func normalise(pkgs []*packages.Package, overlay map[string][]byte, readFile fun
 						})
 						if fn != h.file {
 							missing, okI := importsNeeded(pk, h.decl, f)
+							if !okI && os.Getenv("TABLELINT_DEBUG_NORMALISE") != "" {
+								fmt.Fprintf(os.Stderr, "normalise: %s: imports of %s cannot be added to %s\n", name, h.file, fn)
+							}
 							if !okI {
 								ok = false
 								return true
@@ -225,6 +228,9 @@ func normalise(pkgs []*packages.Package, overlay map[string][]byte, readFile fun
 							// used as a value (a callback handed on): it becomes the function literal it stands for
 							st := n.valueSite(h, fun.(ast.Expr), fn)
 							if st == nil {
+								if os.Getenv("TABLELINT_DEBUG_NORMALISE") != "" {
+									fmt.Fprintf(os.Stderr, "normalise: %s: value use at %s not supported\n", name, n.fset.Position(id.Pos()))
+								}
 								ok = false
 								return true
 							}
@@ -886,11 +892,24 @@ func (n *normaliser) siteRaw(h *nHelper, call *ast.CallExpr, cf string, parent m
 		}
 		rt, okT := pk.TypesInfo.Types[sel.X]
 		recvObj := pk.TypesInfo.Defs[h.decl.Recv.List[0].Names[0]]
-		if !okT || recvObj == nil || !types.Identical(rt.Type, recvObj.Type()) {
+		if !okT || recvObj == nil {
 			return nil
 		}
-		if rn := h.decl.Recv.List[0].Names[0]; !sameName(rn.Name, sel.X) && !substitutable(rn, "", sel.X) {
-			bNames, bArgs, bTypes = append(bNames, rn.Name), append(bArgs, n.srcOf(cf, sel.X.Pos(), sel.X.End())), append(bTypes, "")
+		switch {
+		case types.Identical(rt.Type, recvObj.Type()):
+			if rn := h.decl.Recv.List[0].Names[0]; !sameName(rn.Name, sel.X) && !substitutable(rn, "", sel.X) {
+				bNames, bArgs, bTypes = append(bNames, rn.Name), append(bArgs, n.srcOf(cf, sel.X.Pos(), sel.X.End())), append(bTypes, "")
+			}
+		case types.Identical(types.NewPointer(rt.Type), recvObj.Type()) && rt.Addressable():
+			// x.f.M() with M on *T and f a T: the call takes the field's address
+			bNames, bArgs, bTypes = append(bNames, h.decl.Recv.List[0].Names[0].Name), append(bArgs, "&("+n.srcOf(cf, sel.X.Pos(), sel.X.End())+")"), append(bTypes, "")
+		default:
+			if pt, isP := rt.Type.Underlying().(*types.Pointer); isP && types.Identical(pt.Elem(), recvObj.Type()) {
+				// p.M() with M on T and p a *T: the call copies *p
+				bNames, bArgs, bTypes = append(bNames, h.decl.Recv.List[0].Names[0].Name), append(bArgs, "*("+n.srcOf(cf, sel.X.Pos(), sel.X.End())+")"), append(bTypes, "")
+			} else {
+				return nil
+			}
 		}
 	} else if _, isID := call.Fun.(*ast.Ident); !isID {
 		return nil
